@@ -1,6 +1,6 @@
 #!/bin/bash
 # Re-run every kept seeded change against its property's check (quick tier by default): all must be CAUGHT.
-cd /verif
+cd "$(dirname "$0")/.."
 fail=0
 for d in seeded/*/; do n=$(basename $d); P=${n%%-*}
   r=$(/venv/bin/python tools/seedtest.py $P $d/patch.diff $d/demo.py --tier ${1:-quick} | python3 -c "
